@@ -468,6 +468,7 @@ type stepSpec struct {
 	Name  string   `json:"name,omitempty"`
 	Qtype uint16   `json:"qtype,omitempty"`
 	ID    uint16   `json:"id,omitempty"`
+	Count int      `json:"count,omitempty"` // "burst": number of queries b<k>.<name>; every active main must be chosen at least once
 }
 
 type caseSpec struct {
@@ -551,7 +552,11 @@ func genCase(r *vkit.Run, stream string, idx, nSteps int) caseSpec {
 		for _, m := range cur {
 			st.Modes = append(st.Modes, m.String())
 		}
-		if op == "query" {
+		if op == "burst" {
+			// (1-1/M)^(24M) < 1e-12: a main in rotation is chosen at least once
+			st.Count = 24 * cs.M
+		}
+		if op == "query" || op == "burst" {
 			qn++
 			st.Name = randCase(rng, fmt.Sprintf("q%d.%s%d.c17.verif.test.", qn, stream, idx))
 			st.Qtype = qtypes[rng.IntN(len(qtypes))]
@@ -567,6 +572,31 @@ func genCase(r *vkit.Run, stream string, idx, nSteps int) caseSpec {
 		}
 	}
 	if cs.F > 0 && rng.IntN(4) == 0 {
+		add("init", "")
+	}
+	if cs.F == 0 && rng.IntN(2) == 0 {
+		// no fallbacks, initial health check enabled, mains failing at
+		// construction: they must stay in rotation and serve once they are up
+		all := rng.IntN(2) == 0
+		down := 0
+		for i := 0; i < cs.M; i++ {
+			cur[i] = []mode{mUp, mUpCase, mTrunc}[rng.IntN(3)]
+			if all || rng.IntN(2) == 0 || (i == cs.M-1 && down == 0) {
+				cur[i] = failingModes[rng.IntN(len(failingModes))]
+				down++
+			}
+		}
+		add("init", "")
+		add("query", "")
+		add("query", "")
+		for i := 0; i < cs.M; i++ {
+			cur[i] = []mode{mUp, mUp, mUpCase, mTrunc}[rng.IntN(4)]
+		}
+		add("query", "")
+		add("burst", "")
+		add("refresh", "")
+		add("burst", "")
+	} else if cs.F == 0 && rng.IntN(2) == 0 {
 		add("init", "")
 	}
 	tpl := (idx / 36) % 4 // 0: random walk only, 1,2: back-off template, 3: pooled-connection template
@@ -1226,6 +1256,7 @@ func runCase(r *vkit.Run, cs caseSpec) {
 	state := make([]mainState, cs.M)
 	everFailed := make([]bool, cs.M)
 	downAtRefresh := make([]bool, cs.M) // F == 0: main was failing during some Refresh
+	initDown := false                   // F == 0: some main was failing during the initial health check
 	tags := map[string]bool{}
 	logPos := make([]int, cs.M+cs.F)
 	dead := make([]bool, cs.M+cs.F) // the handler holds a pooled TCP connection that the stub tore down
@@ -1297,6 +1328,86 @@ func runCase(r *vkit.Run, cs caseSpec) {
 					time.Sleep(d)
 				}
 			}
+		}
+		if st.Op == "burst" {
+			seen := make([]bool, cs.M)
+			b0 := time.Now()
+			for k := 0; k < st.Count; k++ {
+				name := fmt.Sprintf("b%d.%s", k, st.Name)
+				breq, brw, berr, q0, q1 := fx.doQuery(name, st.Qtype, st.ID+uint16(k))
+				brecs := make([][]rec, cs.M+cs.F)
+				nSilent := 0
+				for i, s := range fx.all() {
+					brecs[i] = s.logFrom(logPos[i])
+					logPos[i] += len(brecs[i])
+					for _, rc := range brecs[i] {
+						if !strings.EqualFold(rc.Name, name) {
+							r.Bucket("ambiguous_late_record", 1)
+							tags["ambiguous"] = true
+							return
+						}
+					}
+					if len(brecs[i]) > 0 && modes[i] == mSilent {
+						nSilent++
+					}
+				}
+				if q1.Sub(q0) > time.Duration(nSilent)*upsTimeout+upsTimeout*9/10 {
+					r.Bucket("ambiguous_slow_call", 1)
+					tags["ambiguous"] = true
+					return
+				}
+				o, mismatch, both, _ := fx.observe(breq, brw, berr, brecs)
+				tr := stepTrace{Step: si, Op: "burst-query " + name, StartMs: ms(q0), EndMs: ms(q1), Obs: &o, Active: append([]bool(nil), active...)}
+				if mismatch != "" {
+					trace = append(trace, tr)
+					fail("reply:accepted-mismatch:"+mismatch, "a response whose "+mismatch+" does not match the query was handed to the client", si, nil)
+					return
+				}
+				if both {
+					trace = append(trace, tr)
+					fail("query:error-and-response", "ServeDNS wrote a response and returned an error", si, nil)
+					return
+				}
+				tg, key, what, exp, _ := judge([][]bool{active}, mm, fm, cs.Nets, o)
+				if key != "" {
+					tr.Exp = exp
+					trace = append(trace, tr)
+					fail(key, what, si, map[string]any{"model_active": active, "main_modes": st.Modes[:cs.M], "fallback_modes": st.Modes[cs.M:], "burst_query": k})
+					return
+				}
+				tags[tg] = true
+				r.Bucket("queries", 1)
+				countQuery(r, tg)
+				for _, m := range union(o.StubMains, o.ExtraMains) {
+					seen[m] = true
+					for i := range dead {
+						if i == m && len(brecs[i]) > 0 {
+							dead[i] = false
+						}
+					}
+				}
+			}
+			tr := stepTrace{Step: si, Op: "burst", StartMs: ms(b0), EndMs: ms(time.Now()), Active: append([]bool(nil), active...),
+				Note: fmt.Sprintf("%d queries; mains chosen at least once: %v", st.Count, seen)}
+			trace = append(trace, tr)
+			for i := range seen {
+				if active[i] && !seen[i] {
+					k := "query:active-main-never-chosen"
+					if cs.F == 0 {
+						k += ":no-fallbacks"
+					}
+					fail(k, fmt.Sprintf("a main upstream that is in rotation according to the statement received none of %d consecutive queries (chance below 1e-12 for a uniformly random pick)", st.Count),
+						si, map[string]any{"main": i, "chosen": seen, "down_at_an_earlier_health_check": downAtRefresh})
+					return
+				}
+			}
+			r.Bucket("bursts_every_active_main_chosen", 1)
+			if initDown {
+				r.Bucket("nofallback_init_down_then_every_main_served", 1)
+				tags["nofb-init-down-all-served"] = true
+			}
+			completed++
+			continue
 		}
 		var c0, c1 time.Time
 		var req *dns.Msg
@@ -1480,7 +1591,13 @@ func runCase(r *vkit.Run, cs caseSpec) {
 				for i := range mm {
 					if !mm[i].probeOK() {
 						downAtRefresh[i] = true
+						if st.Op == "init" {
+							initDown = true
+						}
 					}
+				}
+				if st.Op == "init" {
+					r.Bucket("nofallback_init_health_checks", 1)
 				}
 				tr.Active = append([]bool(nil), active...)
 				tr.Note = "no fallbacks: active set unchanged"
@@ -1889,7 +2006,7 @@ func TestCheck(t *testing.T) {
 	r.Rule("sequential: seeded schedules of queries / Refresh rounds (immediately, after about half the back-off, or clearly beyond it) against the real forward.Handler with M in {1,2,3} mains and " +
 		"F in {0,1,2} fallbacks (all nine combinations), back-off in {0, 450ms, 750ms, 1h}, upstream networks all-any / all-tcp / mixed any,tcp,udp; every stub has a scripted behaviour per step out of " +
 		"up, upcase (valid reply, question re-cased), trunc (TC over UDP, answer over TCP), servfail, wrongid, wrongname, wrongtype, noquestion, short (<17 bytes), " +
-		"silent (timeout), closed (port closed). Half of the cases start with a fail/detect/recover-inside-backoff/recover-beyond-backoff template, a quarter with a template that lets every upstream answer (connections pooled), then closes upstreams together with their accepted connections and queries before any Refresh; the rest is a random walk. " +
+		"silent (timeout), closed (port closed). Half of the cases start with a fail/detect/recover-inside-backoff/recover-beyond-backoff template, a quarter with a template that lets every upstream answer (connections pooled), then closes upstreams together with their accepted connections and queries before any Refresh; the rest is a random walk; half of the F=0 cases begin with mains failing during the initial health check (HealthcheckInitDuration>0), then recovering, then bursts of 24*M queries in which every main must be chosen at least once. " +
 		"distinct = (M, F, back-off class, set of event kinds the oracle matched in the case); non-trivial = the set holds something else than plain main answers " +
 		"and all-ok refreshes (a fail-over, a rejected reply, a failed probe, a back-off skip, a recovery ...). " +
 		"concurrent: queries from 6 goroutines concurrent with Refresh under the race detector, judged against the union of the active sets before/after")
@@ -1953,6 +2070,7 @@ func TestCheck(t *testing.T) {
 		"queries_answered_by_recovered_main":                50,
 		"nofallback_main_used_after_failing_during_refresh": 100,
 		"concurrent_phase_queries":                          300,
+		"nofallback_init_down_then_every_main_served":       12,
 		"dead_pooled_tcp:main_failover":                     12,
 		"dead_pooled_tcp:fallback_error":                    8,
 		"dead_pooled_tcp:main_no_fallbacks_error":           8,
